@@ -74,6 +74,8 @@ extern const char* yk_log_file;
 extern uint32_t yk_log_line;
 extern uint32_t yk_log_allow_line;   /* harness may declare ONE LOG(ERROR) site (file line) as proven-unreachable elsewhere */
 static inline void yk_fault(const char* what) { (void)what; YK_ASSERT(0, "fault: throw/terminate/trap reached"); YK_ASSUME(0); }
+/* conditional fault without a branch: `if (c) throw ...;` of the real code */
+static inline void yk_fault_if(uint8_t c) { YK_ASSERT(!c, "fault: throw/terminate/trap reached"); YK_ASSUME(!c); }
 static inline void yk_unreachable(void) { YK_ASSERT(0, "fault: llvm unreachable reached"); YK_ASSUME(0); }
 /* std::string members that allocate/grow: only reachable from LOG message formatting in the units verified so far */
 static inline void yk_string_unmodelled(void) { YK_ASSERT(0, "bound: std::string growth path reached (not modelled in this unit)"); YK_ASSUME(0); }
@@ -173,7 +175,7 @@ static inline int32_t yk_memcmp(const uint8_t* a, const uint8_t* b, uint64_t n)
         if (n > 7) { x |= (uint64_t)a[7]; y |= (uint64_t)b[7]; }
         return x < y ? -1 : (x > y ? 1 : 0);
     }
-    if (n > YK_MEMCMP_CAP) { YK_ASSERT(0, "bound: memcmp longer than YK_MEMCMP_CAP"); YK_ASSUME(0); }
+    YK_ASSERT(n <= YK_MEMCMP_CAP, "bound: memcmp longer than YK_MEMCMP_CAP"); YK_ASSUME(n <= YK_MEMCMP_CAP);
     for (unsigned i = 0; i < YK_MEMCMP_CAP; i++) { if (i >= n) break; if (a[i] != b[i]) return a[i] < b[i] ? -1 : 1; }
     return 0;
 }
@@ -201,18 +203,63 @@ static inline void yk_memmove(void* d, const void* s, uint64_t n) { if (n) memmo
 #endif
 static inline void yk_memcpy_v(void* d, const void* s, uint64_t n)
 {
-    if (n > YK_MEMCPY_CAP) { YK_ASSERT(0, "bound: variable-size memcpy larger than YK_MEMCPY_CAP"); YK_ASSUME(0); }
+    if (n > YK_MEMCPY_CAP) {
+        /* a size that is not an IR constant but is one at run time (a tree_instance copied into its value block): plain memcpy */
+        YK_ASSERT(n == 64, "bound: variable-size memcpy larger than YK_MEMCPY_CAP (and not a tree_instance)"); YK_ASSUME(n == 64);
+        memcpy(d, s, 64);
+        return;
+    }
     for (unsigned i = 0; i < YK_MEMCPY_CAP; i++) if (i < n) ((uint8_t*)d)[i] = ((const uint8_t*)s)[i];
 }
 static inline void yk_memmove_v(void* d, const void* s, uint64_t n)
 {
     uint8_t tmp[YK_MEMCPY_CAP];
-    if (n > YK_MEMCPY_CAP) { YK_ASSERT(0, "bound: variable-size memmove larger than YK_MEMCPY_CAP"); YK_ASSUME(0); }
+    YK_ASSERT(n <= YK_MEMCPY_CAP, "bound: variable-size memmove larger than YK_MEMCPY_CAP"); YK_ASSUME(n <= YK_MEMCPY_CAP);
     for (unsigned i = 0; i < YK_MEMCPY_CAP; i++) if (i < n) tmp[i] = ((const uint8_t*)s)[i];
     for (unsigned i = 0; i < YK_MEMCPY_CAP; i++) if (i < n) ((uint8_t*)d)[i] = tmp[i];
 }
 static inline void yk_memset(void* d, uint32_t c, uint64_t n) { if (n) memset(d, (int)c, n); }
 
+/* ---- std::string (libstdc++ SSO layout {char* p; size_t len; union {char buf[16]; size_t cap;}}): members that are out of
+ * line in libstdc++.so are modelled here, field by field, incl. the move from the local buffer to a heap buffer
+ * (capacity policy of _M_create: max(requested, 2*old)); heap buffers are tracked by the ghost allocator so that the
+ * sized delete in the real (header) destructor is checked.  Strings longer than YK_STR_MAX are a reported bound. */
+#ifndef YK_STR_MAX
+#define YK_STR_MAX 30
+#endif
+struct yk_str { uint8_t* p; uint64_t len; uint64_t cap; uint64_t buf1; };
+static inline void* yk_new(uint64_t n, uint64_t al);
+static inline void yk_delete(void* p, uint64_t n, uint64_t al, int how);
+static inline void yk_str_reserve(struct yk_str* s, uint64_t n)
+{
+    uint8_t* local = (uint8_t*)&s->cap;
+    uint64_t cap = (s->p == local) ? 15 : s->cap;
+    if (n <= cap) return;
+    YK_ASSERT(n <= YK_STR_MAX, "bound: std::string longer than YK_STR_MAX"); YK_ASSUME(n <= YK_STR_MAX);
+    uint64_t ncap = n < 2 * cap ? 2 * cap : n;
+    uint8_t* q = (uint8_t*)yk_new(ncap + 1, 16);
+    uint64_t len = s->len;
+    YK_ASSUME(len <= YK_STR_MAX);
+    for (unsigned i = 0; i < YK_STR_MAX + 1; i++) if (i <= len) q[i] = s->p[i];
+    if (s->p != local) yk_delete(s->p, cap + 1, 16, 1);
+    s->p = q; s->cap = ncap;
+}
+static inline void yk_str_append(struct yk_str* s, const uint8_t* a, uint64_t n)
+{
+    uint64_t len = s->len;
+    YK_ASSERT(n <= 16, "bound: std::string append of more than 16 bytes"); YK_ASSUME(n <= 16);
+    yk_str_reserve(s, len + n);
+    for (unsigned i = 0; i < 16; i++) if (i < n) s->p[len + i] = a[i];
+    s->len = len + n; s->p[len + n] = 0;
+}
+static inline void yk_str_assign(struct yk_str* s, uint64_t pos, uint64_t n1, const uint8_t* a, uint64_t n2)
+{
+    YK_ASSERT(pos == 0 && n1 == s->len, "bound: std::string::_M_replace other than whole-string assign"); YK_ASSUME(pos == 0 && n1 == s->len);
+    YK_ASSERT(n2 <= 16, "bound: std::string assign of more than 16 bytes"); YK_ASSUME(n2 <= 16);
+    yk_str_reserve(s, n2);
+    for (unsigned i = 0; i < 16; i++) if (i < n2) s->p[i] = a[i];
+    s->len = n2; s->p[n2] = 0;
+}
 /* ---- RTTI: Itanium ABI layout, single inheritance.  vptr[-1] is the type_info of the dynamic type;
  * a __si_class_type_info is { vptr, name, base }.  The address of the si vtable (+2) identifies that kind. */
 extern uint8_t* yk_si_vtable_addr;    /* set by generated code when the module contains it; else 0 */
@@ -289,9 +336,68 @@ static inline void yk_on_sleep(uint32_t n) { (void)n; }
 #endif
 static inline void yk_layers_reset(void) { yk_layers = 0; }
 static inline void yk_stop(void) { YK_ASSUME(0); }
+#ifdef YK_INTRUDER
+/* ---- intruder mode (kind S restricted to two context switches): thread A is the plain code of the harness; at the hook
+ * site yk_win_lo..yk_win_hi (fixed per query at link time), on a nondeterministically chosen visit, the WHOLE operation
+ * of thread B (registered with yk_intruder()) runs inside the hook, then A goes on.  B runs without being pre-empted:
+ * a wait or a retry inside B means "B cannot complete here before A moves on", which needs a third context switch and is
+ * outside this bound (assume).  After B has run, A's optimistic retries are real (bounded by YK_MAX_RETRIES); a wait
+ * of A after B completed means B left a lock behind (assertion). */
+#ifndef YK_WIN_LO
+#define YK_WIN_LO 0u
+#endif
+#ifndef YK_WIN_HI
+#define YK_WIN_HI 0u
+#endif
+#ifndef YK_WIN_VISIT
+#define YK_WIN_VISIT 0
+#endif
+#ifndef YK_VISIT_CAP
+#define YK_VISIT_CAP 3
+#endif
+#ifndef YK_MAX_RETRIES
+#define YK_MAX_RETRIES 2
+#endif
+extern const uint32_t yk_win_lo, yk_win_hi;
+extern void (*yk_intruder_fn)(void);
+extern uint8_t yk_fired;      /* 0 = B has not run yet, 1 = B is running, 2 = B completed */
+extern uint32_t yk_retries;
+extern uint8_t yk_after_retry;
+extern uint32_t yk_fired_site, yk_fired_visit, yk_visits, yk_hookno, yk_fired_hookno;
+static inline void yk_intruder(void* fn) { yk_intruder_fn = (void (*)(void))fn; }
+static inline uint32_t yk_intruder_state(void) { return yk_fired; }
+static inline int yk_fire_here(uint32_t site)
+{
+    if (yk_fired != 0 || yk_after_retry || yk_intruder_fn == 0) return 0;
+    yk_hookno++;
+    if (site < yk_win_lo || site > yk_win_hi) return 0;
+    yk_visits++;
+#if YK_WIN_VISIT > 0
+    /* the visit of the site at which B runs is fixed per query as well: the state after the hook stays concrete where it
+     * was concrete before (a nondeterministic choice would turn every field B writes into an if-then-else) */
+    YK_ASSERT(yk_visits <= YK_VISIT_CAP, "bound: hook site visited more often than YK_VISIT_CAP before the other thread ran");
+    return yk_visits == YK_WIN_VISIT;
+#else
+    return nondet_uint8() & 1;
+#endif
+}
+static inline void yk_fire_begin(uint32_t site) { yk_fired = 1; yk_fired_site = site; yk_fired_visit = yk_visits; yk_fired_hookno = yk_hookno; }
+static inline void yk_fire_end(void) { yk_fired = 2; }
+#endif
 static inline void yk_hook(int kind, const void* p)
 {
     yk_watch_note(kind, p);
+#ifdef YK_INTRUDER
+    if (kind == 2 && yk_fired == 1) { YK_ASSUME(0); }     /* B would have to wait for A: not a two-switch schedule */
+    if (kind == 2 && yk_fired == 2) { YK_ASSERT(0, "liveness: a thread waits although the other operation has completed (lock left held)"); YK_ASSUME(0); }
+    if (kind == 3 && yk_fired == 1) { YK_ASSUME(0); }     /* B retries on A's transient state: same */
+    if (kind == 3 && yk_fired == 2) {
+        yk_after_retry = 1;    /* a retry happens only after B ran: says so in a form symex can constant-fold in the re-executed loop bodies */
+        yk_retries++;
+        if (yk_retries > YK_MAX_RETRIES) { YK_ASSERT(0, "bound: more optimistic retries than YK_MAX_RETRIES"); YK_ASSUME(0); }
+        return;
+    }
+#endif
     if (kind == 2) { YK_ASSERT(0, "fault: single thread waits (SPIN hook reached)"); YK_ASSUME(0); }
     /* an optimistic retry needs a concurrent writer: with one thread every RETRY back edge is dead code, and the
      * assertion says so (this also keeps symex from unrolling the retry loops) */
@@ -336,13 +442,23 @@ static inline void yk_hook(int kind, const void* p) { yk_watch_note(kind, p); } 
 #ifndef YK_MAX_SLEEPS
 #define YK_MAX_SLEEPS 2
 #endif
+#ifndef YK_MAX_LAYERS
+#define YK_MAX_LAYERS 1
+#endif
+extern uint32_t yk_thr_layers[YK_NT];
 extern uint32_t yk_thr_sleeps[YK_NT];
 extern uint8_t yk_parked[YK_NT];       /* a background thread that used up its periods: never scheduled again */
 static inline int yk_preempt(int kind, const void* p)
 {
     yk_watch_note(kind, p);
     yk_hooks_in_ctx++;
-    if (kind == 5) return 0;                              /* layer descent: a progress marker only */
+    if (kind == 5) {                                      /* layer descent: bounded by the depth of the harness's shape (per thread) */
+        if (yk_cur >= 0) {
+            yk_thr_layers[yk_cur]++;
+            if (yk_thr_layers[yk_cur] >= YK_MAX_LAYERS) { YK_ASSERT(0, "bound: descent below the deepest layer of the shape"); YK_ASSUME(0); }
+        }
+        return 0;
+    }
     if (kind == 2 || kind == 3) return 1;                 /* wait / retry: always hand the processor over */
     if (kind == 4) {
         /* sleepMs(period): the period is ARBITRARY (the thread may go on at once or be delayed); after YK_MAX_SLEEPS
@@ -353,6 +469,23 @@ static inline int yk_preempt(int kind, const void* p)
     }
     if (yk_draining) return 0;                            /* fair continuation: no voluntary pre-emption */
     return nondet_uint8() & 1;
+}
+/* windowed pre-emption (case split of the schedule space over queries): voluntary pre-emption is possible only at the
+ * hook sites yk_win_lo..yk_win_hi (site ids are assigned by ll2c, unique over all threads); the constants are fixed per
+ * query at link time so that symex follows ONE resume point instead of all of them.  Default window = every site. */
+#ifndef YK_WIN_LO
+#define YK_WIN_LO 0u
+#endif
+#ifndef YK_WIN_HI
+#define YK_WIN_HI 0xffffffffu
+#endif
+extern const uint32_t yk_win_lo, yk_win_hi;
+static inline int yk_preempt_s(int kind, const void* p, uint32_t site)
+{
+    if (kind == 0 || kind == 1) {
+        if (site < yk_win_lo || site > yk_win_hi) { yk_watch_note(kind, p); yk_hooks_in_ctx++; return 0; }
+    }
+    return yk_preempt(kind, p);
 }
 void yk_thread(uint32_t i, void* fn);
 void yk_allow_ctx(uint32_t c, uint32_t mask);
